@@ -285,11 +285,11 @@ type vfStorageProvider struct {
 	last  *vfSpaceStorage
 }
 
-func (s *vfStorageProvider) Init(a *app.App) error             { return nil }
-func (s *vfStorageProvider) Name() string                      { return spacestorage.CName }
-func (s *vfStorageProvider) Run(ctx context.Context) error     { return nil }
-func (s *vfStorageProvider) Close(ctx context.Context) error   { return nil }
-func (s *vfStorageProvider) SpaceExists(id string) bool        { _, ok := s.dbs[id]; return ok }
+func (s *vfStorageProvider) Init(a *app.App) error           { return nil }
+func (s *vfStorageProvider) Name() string                    { return spacestorage.CName }
+func (s *vfStorageProvider) Run(ctx context.Context) error   { return nil }
+func (s *vfStorageProvider) Close(ctx context.Context) error { return nil }
+func (s *vfStorageProvider) SpaceExists(id string) bool      { _, ok := s.dbs[id]; return ok }
 func (s *vfStorageProvider) closeAll() {
 	for _, db := range s.dbs {
 		_ = db.Close()
@@ -564,9 +564,11 @@ func (p *vfPeerManager) Name() string          { return peermanager.CName }
 func (p *vfPeerManager) SendMessage(ctx context.Context, peerId string, msg drpc.Message) error {
 	return nil
 }
-func (p *vfPeerManager) GetResponsiblePeers(ctx context.Context) ([]peer.Peer, error) { return nil, nil }
-func (p *vfPeerManager) GetNodePeers(ctx context.Context) ([]peer.Peer, error)        { return nil, nil }
-func (p *vfPeerManager) KeepAlive(ctx context.Context)                                {}
+func (p *vfPeerManager) GetResponsiblePeers(ctx context.Context) ([]peer.Peer, error) {
+	return nil, nil
+}
+func (p *vfPeerManager) GetNodePeers(ctx context.Context) ([]peer.Peer, error) { return nil, nil }
+func (p *vfPeerManager) KeepAlive(ctx context.Context)                         {}
 func (p *vfPeerManager) BroadcastMessage(ctx context.Context, msg drpc.Message) error {
 	hu, ok := msg.(*objectmessages.HeadUpdate)
 	if !ok {
